@@ -258,6 +258,22 @@ theorem c17_snake_camel_roundtrip (x : List Nat) (firstUp : Bool) (h : isSnakeId
     (snakeToCamel x firstUp).bind camelToSnake = some x :=
   roundtrip_ident x firstUp h
 
+/-- What the two case converters compute on ASCII input (every ASCII string, not only the
+grammar): `SnakeToCamelCase` drops each `_` that is not at byte 0 and upper-cases the byte
+after it if it is a lower-case letter (and the first byte when `firstUp`); `CamelCaseToSnake`
+lower-cases each capital and puts `_` before it unless it is at byte 0.  (`snakeSpec`,
+`camelSpec`: structural recursions on the byte list, `Golib/Proof/C17Case.lean`.)  On
+non-ASCII input the two functions are covered by `c17_no_panic` and the differential check
+only. -/
+theorem c17_snake_camel_ascii (x : List Nat) (firstUp : Bool) (h : ∀ b ∈ x, b < 0x80) :
+    snakeToCamel x firstUp = some (snakeSpec x firstUp false) ∧
+    camelToSnake x = some (camelSpec x false) :=
+  ⟨snakeToCamel_ascii x firstUp h, camelToSnake_ascii x h⟩
+
+/-- Non-vacuity: `__a_1_b` ↦ `_A1B` (the leading `_` stays, the others go, only letters are re-cased); `AbCD` ↦ `ab_c_d`. -/
+example : snakeSpec [95, 95, 97, 95, 49, 95, 98] true false = [95, 65, 49, 66] ∧
+    camelSpec [65, 98, 67, 68] false = [97, 98, 95, 99, 95, 100] := by decide
+
 /-- Non-vacuity: `foo_bar1` is in the grammar; `FooBar1` / `fooBar1` are the intermediate values. -/
 example : isSnakeIdent [102, 111, 111, 95, 98, 97, 114, 49] = true := by decide
 example : snakeToCamel [102, 111, 111, 95, 98, 97, 114, 49] true = some [70, 111, 111, 66, 97, 114, 49] := by decide
